@@ -104,6 +104,125 @@ theorem only_documented_rights_matter (op : Op) (c : Cfg) (e : Env) :
       updateRequiredAttributes, updateForcedTransfer, setAccountData, updateSendDenyList,
       addNetAssetValues, validateHasAccess, Cfg.has, relevant, hid]
 
+/-! ### The whole-supply credential of `AddAccess` / `DeleteAccess`
+
+`op_succeeds_iff` takes `Cfg.ctlSupply` as given. The code computes it with
+`accountControlsAllSupply`, which compares the caller's balance with the RECORDED supply. The
+documented meaning ("possess 100% of the total supply", marker.go:866) is `holdsWholeSupply`.
+They agree only while the record is positive and equals the coins in existence; a record of 0
+(every marker created with amount 0; for ever when the supply floats) makes every account with
+a zero balance pass — FALSE of the code as found, see `anyone_takes_over_zero_supply_marker`. -/
+
+/-- Repaired variant = the documented credential, for all balances / records / supplies. -/
+theorem supply_control_is_documented_when_repaired (bal record circ : Int) :
+    accountControlsAllSupplyWith true bal record circ = holdsWholeSupply bal circ := by
+  simp only [accountControlsAllSupplyWith, holdsWholeSupply, if_true]
+
+/-- As found: right only while the record is what exists and is positive (fixed supply after
+the first mint). Full statement (no hypotheses) is false: `vacuous_supply_control`. -/
+theorem supply_control_is_documented_partial (bal record circ : Int) (hrec : record = circ)
+    (hpos : 0 < circ) :
+    accountControlsAllSupplyWith false bal record circ = holdsWholeSupply bal circ := by
+  subst hrec
+  simp [accountControlsAllSupplyWith, holdsWholeSupply, hpos]
+
+/-- As found: with a recorded supply of 0 every account with a zero balance "controls all
+supply", however many coins exist and whoever holds them; and with a stale record a holder of
+exactly the recorded amount does. -/
+theorem vacuous_supply_control (circ : Int) :
+    accountControlsAllSupplyWith false 0 0 circ = true ∧ holdsWholeSupply 0 circ = false
+    ∧ accountControlsAllSupplyWith false 5 5 100 = true ∧ holdsWholeSupply 5 100 = false := by
+  refine ⟨rfl, ?_, rfl, by decide⟩
+  simp only [holdsWholeSupply]
+  by_cases h : 0 < circ
+  · have : ¬ circ = 0 := by omega
+    simp [h, this]
+  · simp [h]
+
+/-- **Witness on the message flow** (replayed on the real msg server, corpus/C12): a marker is
+created with supply 0 and floating supply by `A` (mint + admin); `E`, who holds no right and
+no coin, grants itself every right, mints 9 and withdraws them. -/
+theorem anyone_takes_over_zero_supply_marker :
+    let s := scenRunWith false {} [.create 0 false .coin [.mint, .admin],
+      .add "E" "E" [.mint, .burn, .withdraw, .admin], .mint "E" 9, .withdraw "E" "E" 9]
+    let s₀ := scenRunWith false {} [.create 0 false .coin [.mint, .admin]]
+    s.rightsOf "E" = [.mint, .burn, .withdraw, .admin] ∧ s.balOf "E" = 9
+    -- … although in the documented sense `E` held no credential when it changed the access list
+    ∧ authorised .addAccess { s₀.cfgWith false "E" with
+        ctlSupply := holdsWholeSupply (s₀.balOf "E") s₀.circulating } = false := by decide
+
+/-- Once repaired, an access-list change on an active marker succeeds only for an administrator
+or the holder of every existing coin — in every state of every history. -/
+theorem access_change_needs_real_credential_when_repaired (s : MState) (by_ to : String)
+    (rights : List Access) (s' : MState) (h : scenStepWith true s (.add by_ to rights) = .ok s') :
+    (s.rightsOf by_).contains .admin = true ∨ holdsWholeSupply (s.balOf by_) s.circulating = true := by
+  simp only [scenStepWith] at h
+  cases hc : addAccess (s.cfgWith true by_) with
+  | error e => rw [hc] at h; cases h
+  | ok u =>
+    have := (op_succeeds_iff .addAccess (s.cfgWith true by_) {}).mp (by simpa [runOp] using hc)
+    simp only [noop, MState.cfgWith, authorised, creds, available, envOk,
+      supply_control_is_documented_when_repaired] at this
+    simp [Cred.holds, restrictedOnly] at this
+    simpa using this
+
+/-- As found, the same holds of states whose record is positive and equals what exists. -/
+theorem access_change_needs_real_credential_partial (s : MState) (by_ to : String)
+    (rights : List Access) (s' : MState) (hrec : s.record = s.circulating) (hpos : 0 < s.circulating)
+    (h : scenStepWith false s (.add by_ to rights) = .ok s') :
+    (s.rightsOf by_).contains .admin = true ∨ holdsWholeSupply (s.balOf by_) s.circulating = true := by
+  simp only [scenStepWith] at h
+  cases hc : addAccess (s.cfgWith false by_) with
+  | error e => rw [hc] at h; cases h
+  | ok u =>
+    have := (op_succeeds_iff .addAccess (s.cfgWith false by_) {}).mp (by simpa [runOp] using hc)
+    simp only [noop, MState.cfgWith, authorised, creds, available, envOk,
+      supply_control_is_documented_partial _ _ _ hrec hpos] at this
+    simp [Cred.holds, restrictedOnly] at this
+    simpa using this
+
+/-- The whole-supply clause for whichever variant `supplyControlViaBank` selects. -/
+theorem supply_control_clause_current_code :
+    if supplyControlViaBank then
+      ∀ bal record circ, accountControlsAllSupply bal record circ = holdsWholeSupply bal circ
+    else ∃ bal record circ, accountControlsAllSupply bal record circ = true ∧ holdsWholeSupply bal circ = false := by
+  unfold accountControlsAllSupply
+  cases h : supplyControlViaBank
+  · simp only [Bool.false_eq_true, if_false]
+    exact ⟨0, 0, 9, (vacuous_supply_control 9).1, (vacuous_supply_control 9).2.1⟩
+  · simp only [if_true]
+    exact supply_control_is_documented_when_repaired
+
+/-- Rights change only through `AddAccess` / `DeleteAccess`: mint, burn and withdraw never
+touch the access list (any variant, any state). -/
+theorem only_access_messages_change_rights (viaBank : Bool) (s s' : MState) (op : SOp)
+    (h : scenStepWith viaBank s op = .ok s')
+    (hop : ∀ b t r, op ≠ .add b t r) (hdel : ∀ b w, op ≠ .del b w) (hcr : ∀ a f t r, op ≠ .create a f t r) :
+    s'.rights = s.rights := by
+  cases op with
+  | create a f t r => exact absurd rfl (hcr a f t r)
+  | add b t r => exact absurd rfl (hop b t r)
+  | del b w => exact absurd rfl (hdel b w)
+  | mint b a =>
+    simp only [scenStepWith] at h
+    split at h
+    · cases h
+    · injection h with h; subst h; rfl
+  | burn b a =>
+    simp only [scenStepWith] at h
+    split at h
+    · cases h
+    · split at h
+      · cases h
+      · injection h with h; subst h; rfl
+  | withdraw b t a =>
+    simp only [scenStepWith] at h
+    split at h
+    · cases h
+    · split at h
+      · cases h
+      · injection h with h; subst h; rfl
+
 /-! ## Authz -/
 
 theorem accept_accounting {keep : Bool} {g g' : Grant} {u : Use} {del : Bool}
@@ -440,6 +559,25 @@ theorem transfer_requires_right {keep : Bool} {c : Cfg} {x : Xfer} {s' : Option 
   have hfl := (transfer_ok_iff_flowchart keep c x).mp ⟨s', h⟩
   simp only [transferAllowed, Bool.and_eq_true, Bool.or_eq_true, beq_iff_eq, bne_iff_ne] at hfl
   exact ⟨hfl.1.1.1.1.1.1, hfl.1.1.1.1.1.2, hfl.1.1.1.1.2, hfl.1.1.1.2, hfl.1.2⟩
+
+/-- An IBC transfer of restricted coins needs the `transfer` right and, out of another
+account, that account's covering grant (model of `IbcTransferCoin`'s guard). -/
+theorem ibc_transfer_requires_right_and_grant {keep : Bool} {c : Cfg} {selfFrom : Bool}
+    {stored s' : Option Grant} {u : Use} (h : ibcTransferCoinWith keep c selfFrom stored u = .ok s') :
+    c.mtype = .restricted ∧ c.has .transfer = true ∧ (selfFrom = true ∨ grantCovers stored u = true) := by
+  unfold ibcTransferCoinWith at h
+  split at h
+  · cases h
+  · rename_i hty
+    split at h
+    · cases h
+    · rename_i hacc
+      refine ⟨by simpa using hty, by simpa using hacc, ?_⟩
+      cases selfFrom
+      · right
+        simp only [Bool.not_false, if_true] at h
+        exact (authzHandler_ok_iff keep _ _).mp ⟨s', h⟩
+      · left; rfl
 
 /-! ### Histories of transfers under one grant -/
 
